@@ -226,5 +226,95 @@ def replay_standard(prop, rec):
     return 0
 
 
+# ------------------------------------------------------------------------------------------------
+# C01: in-process history monitor + cross-process join of history logs
+
+C01_RULE = ("case = pool of 3-6 maps (bpm tie setups, tie-heavy maps, generated/mutated/real maps) and a random history of 40-100 "
+            "(thorough 60-200) operations {decode bytes/str/path, bpm, convert/convert_ref/convert_mut, difficulty, strains, gradual "
+            "difficulty, performance, gradual performance, attribute builder} with repetitions, interleavings, fresh vs reused "
+            "Difficulty values and a third of the calls on freshly spawned threads; first-seen table keyed by (map, op, settings, "
+            "score): every later observation must reproduce the first; the map is compared with its clone after every by-reference "
+            "call. The same seeded job list is executed by N separate processes (plain / 64 MiB of junk allocated first / different "
+            "environment size) and the history logs are joined on the key. non-trivial = case ran to completion with >= 1 repeated key")
+
+
+def c01(prop, tier, seed):
+    import glob
+    t0 = time.time()
+    agg = D.Agg()
+    binp = D.build("rel")
+    total = 600 if tier == "quick" else 12000
+    nproc = 3 if tier == "quick" else 6
+    chunk = max(1, (total + 31) // 32)
+    flavours = [({}, {}), ({"junk_mb": 64}, {}), ({}, {"RPV_PADDING": "x" * 3000}), ({"junk_mb": 7}, {"RPV_PADDING": "y" * 17}),
+                ({"junk_mb": 129}, {}), ({}, {"MALLOC_ARENA_MAX": "1"})]
+    import concurrent.futures as cf
+    jobs = []
+    s = 0
+    while s < total:
+        n = min(chunk, total - s)
+        jobs.append((s, n))
+        s += n
+
+    def run_one(pi, s, n):
+        params, env = flavours[pi % len(flavours)]
+        extra = dict(params)
+        extra["--hist"] = os.path.join(D.RUN, f"{prop}-hist-p{pi}-{s}.tsv")
+        D.run_range(agg if pi == 0 else side[pi], binp, prop, seed, s, n, tier, f"p{pi}", extra, 1800, env, None, None, "rel")
+
+    side = {pi: D.Agg() for pi in range(1, nproc)}
+    with cf.ThreadPoolExecutor(max_workers=D.NCPU) as ex:
+        futs = [ex.submit(run_one, pi, s, n) for pi in range(nproc) for (s, n) in jobs]
+        for f in futs:
+            f.result()
+    # violations seen by the other processes count as well
+    for pi, a in side.items():
+        agg.viol.extend(a.viol)
+        agg.herr.extend(a.herr)
+        agg.inconclusive.extend(a.inconclusive)
+        for k, v in a.viol_sig_counts.items():
+            agg.viol_sig_counts[k] = agg.viol_sig_counts.get(k, 0) + v
+    # join
+    joined = 0
+    mismatches = 0
+    missing = 0
+    for (s, n) in jobs:
+        tables = []
+        for pi in range(nproc):
+            fn = os.path.join(D.RUN, f"{prop}-hist-p{pi}-{s}.tsv")
+            t = {}
+            if os.path.exists(fn):
+                for line in open(fn):
+                    k, _, v = line.rstrip("\n").partition("\t")
+                    t.setdefault(k, set()).add(v)
+            tables.append(t)
+        base = tables[0]
+        for k, vs in base.items():
+            for pi in range(1, nproc):
+                o = tables[pi].get(k)
+                if o is None:
+                    missing += 1
+                    continue
+                joined += 1
+                if o != vs:
+                    mismatches += 1
+                    case = int(k.split("/")[0])
+                    opn = k.split("/")[2].split(":")[0]
+                    agg.viol.append({"sig": f"C01/cross-process/{opn}", "case": case, "seed": seed, "variant": "rel",
+                                     "detail": f"key {k}: process 0 observed digests {sorted(vs)}, process {pi} "
+                                               f"({flavours[pi % len(flavours)]}) observed {sorted(o)}",
+                                     "input": None})
+                    agg.viol_sig_counts[f"C01/cross-process/{opn}"] = agg.viol_sig_counts.get(f"C01/cross-process/{opn}", 0) + 1
+    if joined == 0:
+        agg.inconclusive.append("cross-process join compared nothing")
+    # keys missing in another process only happen when a case stopped early at a violation
+    extra_cov = {"processes": nproc, "process_flavours": [str(f) for f in flavours[:nproc]], "cross_process_keys_joined": joined,
+                 "cross_process_mismatches": mismatches, "cross_process_keys_missing": missing}
+    return D.conclude(prop, tier, seed, agg, t0, C01_RULE, COMMON_ASSUME + [
+        "independence from time and addresses is only refuted across the wall-clock times and process layouts the runs happen at"],
+        required={"repeated_observations": 1, "observations_on_spawned_threads": 1}, extra_cov=extra_cov)
+
+
 REGISTRY = {p: standard for p in STANDARD}
+REGISTRY["C01"] = c01
 REPLAYERS = {}
